@@ -18,10 +18,13 @@ import (
 type pauseWorker struct {
 	state atomic.Int32 // 0 running, 1 acking, 2 exited
 	gid   int
+	busyReq chan chan struct{}
+	release chan struct{}
 }
 
 func (w *pauseWorker) loop(ctx context.Context, cancellable bool, started chan struct{}) {
 	w.gid = goid()
+	w.busyReq = make(chan chan struct{})
 	chans := pause.Subscribe()
 	defer func() { w.state.Store(2) }()
 	defer pause.Unsubscribe(chans)
@@ -30,6 +33,13 @@ func (w *pauseWorker) loop(ctx context.Context, cancellable bool, started chan s
 		select {
 		case <-ctx.Done():
 			return
+		case release := <-w.busyReq:
+			// busy with a seed: the worker does not look at its control channels until the work is done
+			select {
+			case <-release:
+			case <-ctx.Done():
+				return
+			}
 		case <-chans.PauseCh:
 			w.state.Store(1)
 			if cancellable {
@@ -123,6 +133,25 @@ func init() {
 				return show()
 			case "stop":
 				cancel()
+				return show()
+			case "busy":
+				i := num(in, "i", 0)
+				if i < len(workers) && workers[i].release == nil && workers[i].state.Load() == 0 {
+					workers[i].release = make(chan struct{})
+					select {
+					case workers[i].busyReq <- workers[i].release:
+					case <-time.After(2 * time.Second):
+						workers[i].release = nil
+						return "harness-error worker not idle"
+					}
+				}
+				return show()
+			case "free":
+				i := num(in, "i", 0)
+				if i < len(workers) && workers[i].release != nil {
+					close(workers[i].release)
+					workers[i].release = nil
+				}
 				return show()
 			}
 			return "harness-error bad-op"
